@@ -20,7 +20,7 @@ rc_without=$(run_demo without)
 applied=plain
 git apply $inc/$name.patch.diff 2>/dev/null || { applied=3way; git apply --3way $inc/$name.patch.diff >/dev/null 2>&1 || applied=FAILED; }
 if [ $applied = FAILED ]; then echo "$name: patch does not apply to HEAD"; exit 2; fi
-git diff -- synrbl > /tmp/seed_rebased_$name.diff
+git diff HEAD -- synrbl > /tmp/seed_rebased_$name.diff
 rc_with=$(run_demo with)
 suite=$(cd $wt && PYTHONPATH=$wt env -u SYNRBL_VERIF /venv/bin/python -m pytest -q -p no:cacheprovider --timeout=900 --continue-on-collection-errors 2>&1 | tail -1)
 failed=$(cd $wt && PYTHONPATH=$wt env -u SYNRBL_VERIF /venv/bin/python -m pytest -q -p no:cacheprovider --timeout=900 --continue-on-collection-errors -x --co -q 2>/dev/null | tail -1)
